@@ -22,7 +22,8 @@ from .. import coqio as C
 from .. import impl_wrappers as W
 from ..core import Check
 
-THEOREMS = {n: "Props.C18" for n in ["C18_bisimulation", "C18_bisimulation_obs", "C18_extra_data", "C18_roundtrip"]}
+THEOREMS = {n: "Props.C18" for n in ["C18_bisimulation", "C18_bisimulation_obs", "C18_tell_many_is_tells", "C18_extra_data",
+                                          "C18_roundtrip"]}
 
 PREAMBLE = """From Coq Require Import ZArith PrimFloat List. Import ListNotations.
 From AV Require Import Base.Prelude Base.FloatUtil Model.GenericLearner Model.DataSaver Run.OracleChild Run.DataSaverRun.
@@ -109,15 +110,37 @@ def gen_history(rng, kind, maxlen):
         r = rng.random()
         if r < 0.30:
             h.append(("ask", rng.choice([1, 1, 2, 3, 5, 0]), rng.random() < 0.85))
-        elif r < 0.66:
+        elif r < 0.62:
             h.append(("tell", rng.choice(["outstanding", "outstanding", "outstanding", "unsolicited", "again"]), rng.random() < 0.7))
-        elif r < 0.76:
+        elif r < 0.70:
             h.append(("tell_pending",))
+        elif r < 0.74:
+            h.append(("tell_pending_told",))
+        elif r < 0.82:
+            h.append(("tell_many", rng.choice([0, 1, 2, 2, 3, 4, 5]), rng.choice(ITER_MODES), rng.choice(ITER_MODES)))
         elif r < 0.92:
             h.append(("loss", rng.random() < 0.5))
         else:
             h.append(("remove_unfinished",))
     return h
+
+
+ITER_MODES = ["list", "tuple", "gen", "map", "zip", "iter"]
+
+
+def one_shot(items, mode, other):
+    """`items` as the given kind of iterable; all but list/tuple can be consumed only once."""
+    if mode == "list":
+        return list(items)
+    if mode == "tuple":
+        return tuple(items)
+    if mode == "gen":
+        return (v for v in items)
+    if mode == "map":
+        return map(lambda v: v, items)
+    if mode == "zip":                   # derived from a zip of both arguments
+        return map(operator.itemgetter(0), zip(list(items), list(other) + [None] * len(items)))
+    return iter(list(items))
 
 
 def apply_op(kind, l, op, wrapped, picker_name):
@@ -131,6 +154,17 @@ def apply_op(kind, l, op, wrapped, picker_name):
             p = dec_point(kind, child, op[1])
             r = make_result(picker_name, op[2], op[3])
             l.tell(p, r if wrapped else make_picker(picker_name)(r))
+            return ("none",)
+        if op[0] == "tell_many":
+            child = l.learner if wrapped else l
+            xs = [dec_point(kind, child, it[0]) for it in op[1]]
+            rs = [make_result(picker_name, it[1], it[2]) for it in op[1]]
+            if wrapped:
+                l.tell_many(one_shot(xs, op[2], rs), one_shot(rs, op[3], xs))
+            else:                       # the bare learner fed the picked values, one by one
+                pk = make_picker(picker_name)
+                for p, r in zip(xs, rs):
+                    l.tell(p, pk(r))
             return ("none",)
         if op[0] == "tell_pending":
             child = l.learner if wrapped else l
@@ -162,32 +196,50 @@ def drive(spec, hist=None, rng=None, concrete=None, record=True, overwrites=True
 
     retell_at = [None]       # index of the first re-tell the child ignored (F20 trigger), if any
 
+    def items_of(op):
+        if op[0] == "tell":
+            return [(op[1], op[2], op[3])]
+        if op[0] == "tell_many":
+            return [tuple(it) for it in op[1]]
+        return []
+
     def do(op, full=True):
         nonlocal stop
+        try:
+            _do(op, full)
+        except Exception as e:          # the implementation left a state the harness cannot even observe
+            errors.append(("C18:unobservable_state", f"{type(e).__name__}: {e} while observing the DataSaver after {op[0]}"))
+            stop = "unobservable"
+
+    def _do(op, full):
+        nonlocal stop
         ncalls = len(picker.calls)
-        before = None
-        if op[0] == "tell":
-            hp0 = W.hashable(kind, dec_point(kind, child, op[1]))
-            before = {W.hashable(kind, q): v for q, v in child.data.items()}.get(hp0)
+        items = items_of(op)
+        cur = {W.hashable(kind, q): v for q, v in child.data.items()} if items else {}
         out = apply_op(kind, ds, op, True, pname)
-        if op[0] == "tell":
-            r = make_result(pname, op[2], op[3])
+        if items:
+            results = [make_result(pname, y, t) for _, y, t in items]
             if out[0] == "none":
-                hp = W.hashable(kind, dec_point(kind, child, op[1]))
-                if hp not in expected_extra:
-                    key_order.append(hp)
-                after = {W.hashable(kind, q): v for q, v in child.data.items()}.get(hp)
-                unchanged = before is not None and after == before
-                differs = float(make_picker(pname)(r)) != float(before) if before is not None else True
-                if unchanged and retell_at[0] is None:
-                    retell_at[0] = len(steps)
-                if overwrites or not unchanged or hp not in expected_extra:
-                    expected_extra[hp] = [r]
-                elif not differs:
-                    expected_extra[hp] = expected_extra[hp] + [r]     # repaired F20, same value: either result is fine
-            if len(picker.calls) != ncalls + 1 or picker.calls[-1] != r:
-                errors.append(("C18:picker_once", f"tell called the picker {len(picker.calls) - ncalls} times "
-                                                  f"(last argument {picker.calls[-1] if picker.calls else None!r}, result {r!r})"))
+                final = {W.hashable(kind, q): v for q, v in child.data.items()}
+                for (enc, y, t), r in zip(items, results):
+                    hp = W.hashable(kind, dec_point(kind, child, enc))
+                    before = cur.get(hp)
+                    unchanged = before is not None and final.get(hp) == before
+                    differs = float(make_picker(pname)(r)) != float(before) if before is not None else True
+                    if unchanged and retell_at[0] is None:
+                        retell_at[0] = len(steps)
+                    if hp not in expected_extra:
+                        key_order.append(hp)
+                        expected_extra[hp] = [r]
+                    elif overwrites or not unchanged:
+                        expected_extra[hp] = [r]
+                    elif not differs:
+                        expected_extra[hp] = expected_extra[hp] + [r]     # repaired F20, same value: either result is fine
+                    cur[hp] = final.get(hp)
+                got = picker.calls[ncalls:]
+                if len(got) != len(results) or any(a != b for a, b in zip(got, results)):
+                    errors.append(("C18:picker_once", f"{op[0]} of {len(results)} result(s) called the picker {len(got)} times "
+                                                      f"(arguments {got[:3]!r}, results {results[:3]!r})"))
         elif len(picker.calls) != ncalls:
             errors.append(("C18:picker_once", f"{op[0]} called the picker"))
         if out[0] == "ask" and op[2]:
@@ -200,9 +252,13 @@ def drive(spec, hist=None, rng=None, concrete=None, record=True, overwrites=True
             keys = [W.hashable(kind, k) for k in ds.extra_data.keys()]
         except Exception:
             keys = list(ds.extra_data.keys())
-        if keys != key_order:
+        lost = [hp for hp in key_order if hp not in keys]
+        if lost and out[0] != "exc":
+            errors.append(("C18:told_result_lost", f"after {op[0]} the full result of told point(s) {lost[:4]} is no longer "
+                                                   f"retrievable from extra_data (keys {keys[:6]})"))
+        elif keys != key_order and out[0] != "exc":
             errors.append(("C18:extra_data_keys", f"extra_data keys {keys[:6]} != told points {key_order[:6]}"))
-        elif any(ds.extra_data[k] not in expected_extra[W.hashable(kind, k)] for k in ds.extra_data):
+        elif out[0] != "exc" and any(ds.extra_data[k] not in expected_extra[W.hashable(kind, k)] for k in ds.extra_data):
             errors.append(("C18:extra_data_values", "extra_data value is not the last full result told for the point"))
         else:
             extra_ok = True
@@ -211,6 +267,7 @@ def drive(spec, hist=None, rng=None, concrete=None, record=True, overwrites=True
             stop = "exception:" + out[1]
         elif not extra_ok:
             stop = "extra_data-wrong"          # reported above; the model comparison needs well-formed extra_data
+            st = public_state(kind, ds)        # the twin comparison still runs on this step
         else:
             if rec is not None and full:
                 rec.mark_full()
@@ -218,9 +275,22 @@ def drive(spec, hist=None, rng=None, concrete=None, record=True, overwrites=True
             o = {"extra": [(W.enc_point(kind, k), float(make_picker(pname)(v)), tag_of(pname, v)) for k, v in ds.extra_data.items()],
                  "npoints": st["npoints"], "pend": st["pend"], "data": st["data"] if full else None,
                  "loss_r": st["loss_r"], "loss_e": st["loss_e"]}
-        if stop == "extra_data-wrong":
-            return
         steps.append((op, out, o, st))
+
+    def new_point(source):
+        """A point for a tell: (point, is_again) or None."""
+        if source == "outstanding" and outstanding:
+            return outstanding.pop(rng.randrange(len(outstanding))), False
+        if source == "unsolicited" and kind in ("l1d", "seq", "avg"):
+            if kind == "l1d":
+                return round(rng.uniform(*child.bounds), 3), False
+            if kind == "seq":
+                i = rng.randrange(len(child.sequence))
+                return (i, child.sequence[i]), False
+            return int(child.npoints + len(child.pending_points) + rng.randrange(4)), False
+        if source == "again" and told_keys and kind in ("l1d", "seq", "avg"):
+            return rng.choice(told_keys), True
+        return None
 
     if concrete is not None:
         for op in concrete:
@@ -258,6 +328,27 @@ def drive(spec, hist=None, rng=None, concrete=None, record=True, overwrites=True
                     y = W.evaluate(kind, child, p) if a[1] != "again" else W.evaluate(kind, child, p) + 1.0
                     told_keys.append(p)
                     do(("tell", W.enc_point(kind, p), y, tag[0]), full)
+            elif k == "tell_many":
+                items, seen_hp = [], set()
+                for _ in range(a[1]):
+                    got = new_point(rng.choice(["outstanding", "outstanding", "unsolicited", "again"]))
+                    if got is None:
+                        continue
+                    p, again = got
+                    hp = W.hashable(kind, p)
+                    if hp in seen_hp and (kind not in ("l1d", "avg") or rng.random() < 0.8):
+                        continue            # mostly distinct points inside one batch
+                    seen_hp.add(hp)
+                    tag[0] += 1
+                    y = W.evaluate(kind, child, p) + (1.0 if again else 0.0)
+                    told_keys.append(p)
+                    items.append([W.enc_point(kind, p), y, tag[0]])
+                do(("tell_many", items, a[2], a[3]), full)
+            elif k == "tell_pending_told":
+                # a point whose result has already arrived is announced as pending (again): tolerated by
+                # Learner1D (no-op), AverageLearner and SequenceLearner (marked pending)
+                if kind in ("l1d", "seq", "avg") and told_keys:
+                    do(("tell_pending", W.enc_point(kind, rng.choice(told_keys))), full)
             elif k == "tell_pending" and kind in ("l1d", "seq", "avg"):
                 if kind == "l1d":
                     p = round(rng.uniform(*child.bounds), 3)
@@ -364,6 +455,8 @@ def op_term(op):
         return C.app("@Ask OL R", C.nat(op[1]), C.bool_(op[2]))
     if k == "tell":
         return C.app("@Tell OL R", W.pt_term(op[1]), C.pair(C.flt(op[2]), C.Z(op[3])))
+    if k == "tell_many":
+        return C.app("@TellMany OL R", C.lst(C.pair(W.pt_term(it[0]), C.pair(C.flt(it[1]), C.Z(it[2]))) for it in op[1]))
     if k == "tell_pending":
         return C.app("@TellPending OL R", W.pt_term(op[1]))
     if k == "loss":
@@ -394,9 +487,14 @@ def coq_ops(spec, steps):
     for op, o, ob, _ in steps:
         if o[0] == "exc":
             break
+        if ob is None:
+            break                      # extra_data was malformed here (reported by the oracle)
         if op[0] == "tell":
             r = make_result(spec["picker"], op[2], op[3])
             op = ("tell", op[1], float(pk(r)), tag_of(spec["picker"], r))
+        elif op[0] == "tell_many":
+            rs = [make_result(spec["picker"], it[1], it[2]) for it in op[1]]
+            op = ("tell_many", [[it[0], float(pk(r)), tag_of(spec["picker"], r)] for it, r in zip(op[1], rs)])
         out.append((op, o, ob))
     return out
 
@@ -416,13 +514,13 @@ def nontrivial(steps):
     for op, out, o, _ in steps:
         if op[0] == "ask" and out[0] == "ask" and op[2]:
             asked += [tuple(p) for p in out[1]]
-        elif op[0] == "tell":
-            key = tuple(op[1])
-            retold |= key in told
-            told.add(key)
-            if key in asked:
-                ooo |= asked.index(key) != 0
-                asked.remove(key)
+        elif op[0] in ("tell", "tell_many"):
+            for key in ([tuple(op[1])] if op[0] == "tell" else [tuple(it[0]) for it in op[1]]):
+                retold |= key in told
+                told.add(key)
+                if key in asked:
+                    ooo |= asked.index(key) != 0
+                    asked.remove(key)
         elif op[0] in ("tell_pending", "remove_unfinished"):
             pend = True
     return ooo and (retold or pend)
@@ -508,10 +606,10 @@ def run(chk: Check) -> int:
     flush("cases")
     exhaustive = 0
     if not chk.quick:
-        # every op word of length <= 4 over an 8-letter alphabet after a warm-up, Learner1D and AverageLearner, each picker
+        # every op word of length <= 4 over a 9-letter alphabet after a warm-up, Learner1D and AverageLearner, each picker
         import itertools
-        alphabet = [("ask", 1, True), ("ask", 2, False), ("tell", "outstanding", False), ("tell", "outstanding", True),
-                    ("tell", "again", True), ("tell_pending",), ("loss", False), ("remove_unfinished",)]
+        alphabet = [("ask", 1, True), ("ask", 2, False), ("tell", "outstanding", False), ("tell_many", 2, "gen", "map"),
+                    ("tell", "again", True), ("tell_pending",), ("tell_pending_told",), ("loss", False), ("remove_unfinished",)]
         warm = [("ask", 3, True), ("tell", "outstanding", False)]
         for kind in ("l1d", "avg"):
             for pname in PICKERS:
@@ -530,7 +628,9 @@ def run(chk: Check) -> int:
     return chk.finish(
         rule="histories generated by driving the real DataSaver over Learner1D / LearnerND / SequenceLearner / AverageLearner / "
              "IntegratorLearner with three pickers (operator.itemgetter, a lambda on dict results, identity): asks (committing and not), "
-             "out-of-order, unsolicited and repeated tells of full results, tell_pending, loss(real), remove_unfinished; each history is "
+             "out-of-order, unsolicited and repeated tells of full results, tell_many batches of 0-5 (lists, tuples and one-shot iterables: "
+             "generator, map, zip-derived, iter; mixed new/known points), tell_pending of new and of already told points, loss(real), "
+             "remove_unfinished; each history is "
              "replayed on the bare learner fed the picked values (twin) and ends with save/load, pickle and _get_data/_set_data round "
              "trips; non-trivial = an out-of-order tell and (a point told twice or pending points marked/discarded); distinct by "
              "(child, picker, op list)",
